@@ -154,7 +154,11 @@ func builtinDateParse(call FunctionCall) Value {
 }
 
 func builtinDateUTC(call FunctionCall) Value {
-	return float64Value(newDateTime(call.ArgumentList, time.UTC))
+	epoch := newDateTime(call.ArgumentList, time.UTC)
+	if math.Abs(epoch) > maxTimeValue { // TimeClip (15.9.1.14)
+		epoch = math.NaN()
+	}
+	return float64Value(epoch)
 }
 
 func builtinDateNow(call FunctionCall) Value {
